@@ -193,5 +193,14 @@ PROPS["C03"] = {
     "note": "the data-flow collector (visitor with dozens of handlers) is not under contract; behaviour is compared on a finite input set only.",
     "undecided": ["behavioural equivalence for all programs and inputs", "similar= matching beyond C19"],
 }
+PROPS["C05"] = {
+    "sidecars": ["c05_modname.py", "c07_selector.py"],
+    "level": "exploration",
+    "claim": "Mostly bounded and behavioural (95 move/rename/to-package scenarios executed before and after).  Deductive kernel: libutils.modname computes the dotted name "
+             "'own name qualified by every enclosing package folder' for every resource (loop invariant over a recursively specified qual), and the lemma that "
+             "module-to-package keeps that name follows from the contract's specification; the import selector kernel of C07 is shared.",
+    "note": "no contract within reach states 'every importer still works' (import rewriting in move.py spans occurrence finding, import tools and text edits).",
+    "undecided": ["all import-rewriting paths of move.py", "behaviour for all projects"],
+}
 _NB = "check not built yet (framework under construction; see DESIGN.md section 8)"
 NOT_APPLICABLE = {"C%02d" % i: _NB for i in range(1, 21)}
